@@ -11,7 +11,7 @@ from krrood.entity_query_language.quantify_entity import an
 from krrood.entity_query_language.predicate import symbolic_function
 
 a = args()
-rep = Report("C10", "query shapes (atoms, and_/or_/not_, two variables, attribute chains, a symbolic function, contains) x one-shot generator "
+rep = Report("C10", "query shapes (atoms, and_/or_/not_, exists, two variables, attribute chains, index with a user-defined key, method call with user arguments, a symbolic function, contains, flatten over a lazily produced inner iterable) x one-shot generator "
              "domains of 4-5 elements x result quantification (none, AtLeast, AtMost, Range) x k = 0..4 results pulled; event log of domain pulls, property reads and predicate calls", a.out)
 LOG = []
 
@@ -30,12 +30,51 @@ class Obj:
         LOG.append(("read", self._name, "items"))
         return self._items
 
+    @property
+    def lazy(self):
+        """an inner iterable that is produced on demand"""
+        LOG.append(("read", self._name, "lazy"))
+
+        def produce():
+            for j, item in enumerate(self._items):
+                LOG.append(("pull-inner", self._name, j))
+                yield item
+        return produce()
+
+    @property
+    def table(self):
+        LOG.append(("read", self._name, "table"))
+        return {KEY: self._v}
+
+    def above(self, probe, limit=None):
+        LOG.append(("call", "above", self._name))
+        return self._v > probe.v
+
     def __bool__(self):
         LOG.append(("bool", self._name))
         return True
 
     def __repr__(self):
         return self._name
+
+
+class Key:
+    """a user-defined dictionary key: hashing / comparing / printing it is user code"""
+
+    def __hash__(self):
+        LOG.append(("hash", "key"))
+        return 7
+
+    def __eq__(self, other):
+        LOG.append(("eq", "key"))
+        return self is other
+
+    def __repr__(self):
+        LOG.append(("repr", "key"))
+        return "Key"
+
+
+KEY = Key()
 
 
 def gen(name, objs):
@@ -67,6 +106,10 @@ class Probe:
     def __hash__(self):
         return hash(self.v)
 
+    def __repr__(self):
+        LOG.append(("repr", "literal"))
+        return f"Probe({self.v})"
+
 
 def make_domains():
     xs = [Obj(f"x{i}", v, items=[v, v + 1]) for i, v in enumerate([1, 5, 2, 7, 0])]
@@ -85,6 +128,10 @@ SHAPES = {
     "x.v<y.v": lambda x, y: ([x, y], x.v < y.v, lambda xo, yo: xo._v < yo._v),
     "x.v==y.v": lambda x, y: ([x, y], x.v == y.v, lambda xo, yo: xo._v == yo._v),
     "x.v<3 and y.v>x.v": lambda x, y: ([x, y], and_(x.v < 3, y.v > x.v), lambda xo, yo: xo._v < 3 and yo._v > xo._v),
+    "exists(x, x.v<3)": lambda x, y: ([x], exists(x, x.v < 3), lambda xo, yo: xo._v < 3),
+    "x.table[KEY]<3": lambda x, y: ([x], x.table[KEY] < 3, lambda xo, yo: xo._v < 3),
+    "x.above(Probe(2))": lambda x, y: ([x], x.above(Probe(2)), lambda xo, yo: xo._v > 2),
+    "x.above(Probe(2), limit=Probe(9))": lambda x, y: ([x], x.above(Probe(2), limit=Probe(9)), lambda xo, yo: xo._v > 2),
     "no-condition": lambda x, y: ([x], None, lambda xo, yo: True),
 }
 
@@ -174,4 +221,37 @@ for (sname, mk), (qname, mkq) in itertools.product(SHAPES.items(), QUANTS.items(
         if k == 0 and LOG:
             rep.fail(f"eager-evaluate::{sname}", f"{sname}: evaluate() without next() logged {LOG[:4]}", inp)
             break
+# flatten over a lazily produced inner iterable: the k-th flattened value needs k inner pulls, not the whole inner iterable
+for k in range(0, 7):
+    del LOG[:]
+    xs, ys = make_domains()
+    x = let(Obj, gen("x", xs), name="x")
+    inp = {"shape": "flatten(x.lazy)", "k": k}
+    rep.case(("flatten(x.lazy)", k), sample=inp)
+    st, q = guarded(lambda: an(entity(flatten(x.lazy))))
+    if st == "exc":
+        rep.fail("raised::flatten", f"flatten(x.lazy): building raised {type(q).__name__}: {q}", inp)
+        break
+    if LOG:
+        rep.fail("eager-construction::flatten", f"flatten(x.lazy): user code ran while building: {LOG[:4]}", inp)
+        break
+    it = iter(q.evaluate())
+    got = []
+    st, r = guarded(lambda: [got.append(next(it)) for _ in range(k)])
+    if st == "exc" and not isinstance(r, StopIteration):
+        rep.fail("raised::flatten", f"flatten(x.lazy): pulling {k} values raised {type(r).__name__}: {r}", inp)
+        break
+    full = [item for xo in xs for item in xo._items]
+    if got != full[:k]:
+        rep.fail("not-a-prefix::flatten", f"flatten(x.lazy): first {k} values {got} are not the prefix {full[:k]}", inp)
+        break
+    inner = [e for e in LOG if e[0] == "pull-inner"]
+    if len(inner) > k:
+        rep.fail("over-pull-inner::flatten", f"flatten(x.lazy): {k} values pulled {len(inner)} elements of the lazily produced inner iterables, {k} suffice", inp)
+        break
+    outer = [e for e in LOG if e[:2] == ("pull", "x")]
+    need = (k + 1) // 2 if k else 0
+    if len(outer) > need:
+        rep.fail("over-pull::flatten", f"flatten(x.lazy): {k} values pulled {len(outer)} elements of the domain generator, {need} suffice", inp)
+        break
 rep.finish(exhaustive=True)
